@@ -21,6 +21,7 @@
 (*   StartExec        remoteRunner.Start on the VM + starting -> running   *)
 (*   KillTick         remoteRunner.Kill loop: SIGTERM, onKilled            *)
 (*   IdleShutdown, DestroyOK, InstanceGone   shutdown / Destroy / pool.sync *)
+(*   ListStart, ListApply   a list call that takes time (sync threshold)   *)
 (* Scheduler                                                               *)
 (*   Fix*             fixStaleLocks (incl. the timeout)                    *)
 (*   RQBegin, RQVisit, RQStart, RQEnd, RQTail*   runQueue as the code      *)
@@ -47,6 +48,8 @@ CONSTANTS NC, NW,            \* containers 1..NC, instance slots 1..NW
           Mode,              \* the contract's mode: "exact" | "sound" | "async"
           AtomicQueue,       \* BOOLEAN: API calls and queue refreshes are atomic (test.Queue) or not (container.Queue)
           StaleTimeout,      \* BOOLEAN: fixStaleLocks may time out
+          StaleLists,        \* BOOLEAN: the cloud's list call takes time (ListStart .. ListApply are separate steps)
+          ThresholdBefore,   \* BOOLEAN: pool.sync's threshold is taken before the list call (the code) or after it
           InitStates,        \* initial API states of containers
           B,                 \* budgets [restart, crash, user, brk, apifail, opib]
           MaxHist
@@ -55,6 +58,7 @@ VARIABLES api, procs, ib, ibv, lk, lkNext, pass, ever, pend, mode, \* contract
           q, upd, dontupd, nextq, updMark,                   \* queue cache
           wk, exitedP, probing, dirty, killing, broken, vmx, \* pool; VM truth [exists, booted], unresponsive VMs
           rb,                                                \* VMs whose probe answers say "broken"
+          lsnap, born,                                       \* list call in flight: instances it saw (or <<>> = none in flight); workers created since
           phase, stale, rqE, rqRun, rqTodo, rqCur, unalloc, dontstart, overq,   \* scheduler
           op, spawn,                                         \* per-container operations
           bud, kf, last, hist
@@ -65,7 +69,7 @@ C == INSTANCE DispatchContract
 
 dcvars == <<api, procs, ib, ibv, lk, lkNext, pass, ever, pend, mode>>
 qv == <<q, upd, dontupd, nextq, updMark>>
-pv == <<wk, exitedP, probing, dirty, killing, broken, vmx, rb>>
+pv == <<wk, exitedP, probing, dirty, killing, broken, vmx, rb, lsnap, born>>
 sv == <<phase, stale, rqE, rqRun, rqTodo, rqCur, unalloc, dontstart, overq>>
 ov == <<op, spawn>>
 vars == <<dcvars, qv, pv, sv, ov, bud, kf, last, hist>>
@@ -88,7 +92,7 @@ Init ==
     /\ q = [c \in Ctrs |-> NoEnt] /\ upd = "idle" /\ dontupd = {} /\ nextq = [c \in Ctrs |-> NoEnt]
     /\ updMark = {}
     /\ wk = [w \in Wk |-> NoWk] /\ exitedP = [c \in Ctrs |-> "none"]
-    /\ probing = [w \in Wk |-> NoProbe] /\ dirty = {} /\ killing = [w \in Wk |-> {}] /\ broken = {} /\ vmx = [w \in Wk |-> NoVm] /\ rb = {}
+    /\ probing = [w \in Wk |-> NoProbe] /\ dirty = {} /\ killing = [w \in Wk |-> {}] /\ broken = {} /\ vmx = [w \in Wk |-> NoVm] /\ rb = {} /\ lsnap = <<>> /\ born = {}
     /\ phase = "boot" /\ stale = {} /\ rqE = [c \in Ctrs |-> NoEnt] /\ rqRun = {} /\ rqTodo = {}
     /\ rqCur = 0 /\ unalloc = 0 /\ dontstart = FALSE /\ overq = FALSE
     /\ op = [c \in Ctrs |-> NoOp] /\ spawn = [c \in Ctrs |-> {}]
@@ -171,7 +175,7 @@ VMBoot(w) ==
     /\ vmx[w].exists /\ ~vmx[w].booted
     /\ vmx' = [vmx EXCEPT ![w].booted = TRUE]
     /\ Ev("none", 0, w) /\ H("vmboot", 0, w, "")
-    /\ UNCHANGED <<dcvars, qv, wk, exitedP, probing, dirty, killing, broken, rb, sv, ov, bud, kf>>
+    /\ UNCHANGED <<dcvars, qv, wk, exitedP, probing, dirty, killing, broken, rb, lsnap, born, sv, ov, bud, kf>>
 
 \* the VM stops answering (its processes go on)
 VMBreak(w) ==
@@ -179,12 +183,12 @@ VMBreak(w) ==
     /\ broken' = broken \cup {w}
     /\ bud' = [bud EXCEPT !.brk = @ - 1]
     /\ Ev("none", 0, w) /\ H("vmbreak", 0, w, "")
-    /\ UNCHANGED <<dcvars, qv, wk, exitedP, probing, dirty, killing, vmx, rb, sv, ov, kf>>
+    /\ UNCHANGED <<dcvars, qv, wk, exitedP, probing, dirty, killing, vmx, rb, lsnap, born, sv, ov, kf>>
 
 \* the VM starts answering "broken" to probes (it keeps working)
 VMReportBroken(w) ==
     /\ bud.brk > 0 /\ vmx[w].exists /\ w \notin rb
-    /\ rb' = rb \cup {w}
+    /\ rb' = rb \cup {w} /\ UNCHANGED <<lsnap, born>>
     /\ bud' = [bud EXCEPT !.brk = @ - 1]
     /\ Ev("none", 0, w) /\ H("vmreportbroken", 0, w, "")
     /\ UNCHANGED <<dcvars, qv, wk, exitedP, probing, dirty, killing, broken, vmx, sv, ov, kf>>
@@ -204,7 +208,7 @@ OpKillInstance(w) ==
     /\ wk' = ShutdownWk(w) /\ dirty' = dirty \cup {w}
     /\ bud' = [bud EXCEPT !.opib = @ - 1]
     /\ Ev("none", 0, w) /\ H("opkill", 0, w, "")
-    /\ UNCHANGED <<dcvars, qv, exitedP, probing, killing, broken, vmx, rb, sv, ov, kf>>
+    /\ UNCHANGED <<dcvars, qv, exitedP, probing, killing, broken, vmx, rb, lsnap, born, sv, ov, kf>>
 
 ------------------------------------------------------------------------------
 (* Queue cache: container.Queue.Update *)
@@ -240,7 +244,7 @@ UpdEnd ==
     /\ phase' = IF phase = "boot" THEN "fix" ELSE phase
     /\ C!UpdApplyEff
     /\ Ev("updapply", 0, 0) /\ H("updend", 0, 0, "")
-    /\ UNCHANGED <<nextq, updMark, wk, probing, dirty, killing, broken, vmx, rb,
+    /\ UNCHANGED <<nextq, updMark, wk, probing, dirty, killing, broken, vmx, rb, lsnap, born,
                    stale, rqE, rqRun, rqTodo, rqCur, unalloc, dontstart, overq, ov, bud, kf>>
 
 \* test.Queue.Update: poll and apply in one step
@@ -251,7 +255,7 @@ UpdAtomic ==
     /\ phase' = IF phase = "boot" THEN "fix" ELSE phase
     /\ C!UpdAtomicEff
     /\ Ev("updatomic", 0, 0) /\ H("update", 0, 0, "")
-    /\ UNCHANGED <<upd, dontupd, nextq, updMark, wk, probing, dirty, killing, broken, vmx, rb,
+    /\ UNCHANGED <<upd, dontupd, nextq, updMark, wk, probing, dirty, killing, broken, vmx, rb, lsnap, born,
                    stale, rqE, rqRun, rqTodo, rqCur, unalloc, dontstart, overq, ov, bud, kf>>
 
 ------------------------------------------------------------------------------
@@ -267,7 +271,7 @@ ProbeStart(w) ==
                                               list |-> IF okk THEN procs[w] ELSE {}, rb |-> okk /\ w \in rb]]
     /\ dirty' = dirty \ {w}
     /\ Ev("none", 0, w) /\ H("probestart", 0, w, "")
-    /\ UNCHANGED <<dcvars, qv, wk, exitedP, killing, broken, vmx, rb, sv, ov, bud, kf>>
+    /\ UNCHANGED <<dcvars, qv, wk, exitedP, killing, broken, vmx, rb, lsnap, born, sv, ov, bud, kf>>
 
 \* first thing probeAndUpdate does with an answer that says "broken": drain the worker (unless the
 \* operator has set another idle behaviour); a separate step here, under the same lock in the code
@@ -307,7 +311,7 @@ ProbeEnd(w, tmo) ==
                   /\ killing' = [killing EXCEPT ![w] = @ \ gone]
                   /\ dirty' = IF gone # {} THEN dirty \cup {w} ELSE dirty
     /\ Ev(IF tmo THEN "probetimeout" ELSE "none", 0, w) /\ H("probeend", 0, w, IF tmo THEN "timeout" ELSE "")
-    /\ UNCHANGED <<dcvars, q, upd, dontupd, nextq, broken, vmx, rb, sv, ov, bud, kf>>
+    /\ UNCHANGED <<dcvars, q, upd, dontupd, nextq, broken, vmx, rb, lsnap, born, sv, ov, bud, kf>>
 
 \* remoteRunner.Start executes on the VM, then starting -> running under the pool lock
 StartExec(w, c) ==
@@ -318,7 +322,7 @@ StartExec(w, c) ==
     /\ wk' = [wk EXCEPT ![w].starting = @ \ {c}, ![w].running = @ \cup {c}]
     /\ dirty' = dirty \cup {w}
     /\ H("startexec", c, w, IF Reach(w) THEN "ok" ELSE "fail")
-    /\ UNCHANGED <<qv, exitedP, probing, killing, broken, vmx, rb, sv, ov, bud, kf>>
+    /\ UNCHANGED <<qv, exitedP, probing, killing, broken, vmx, rb, lsnap, born, sv, ov, bud, kf>>
 
 \* one round of the remoteRunner.Kill loop for the runner of c on w
 KillTick(w, c) ==
@@ -338,7 +342,7 @@ KillTick(w, c) ==
                     /\ killing' = [killing EXCEPT ![w] = @ \ {c}]
                     /\ UNCHANGED dcvars /\ Ev("none", c, w)
     /\ H("killtick", c, w, "")
-    /\ UNCHANGED <<q, upd, dontupd, nextq, probing, broken, vmx, rb, sv, ov, bud, kf>>
+    /\ UNCHANGED <<q, upd, dontupd, nextq, probing, broken, vmx, rb, lsnap, born, sv, ov, bud, kf>>
 
 \* runProbes: shutdownIfIdle (idle timeout or drain)
 IdleShutdown(w) ==
@@ -347,14 +351,14 @@ IdleShutdown(w) ==
        \/ wk[w].st = "booting" /\ ib[w] = "drain"
     /\ wk' = ShutdownWk(w) /\ dirty' = dirty \cup {w}
     /\ Ev("idleshutdown", 0, w) /\ H("idleshutdown", 0, w, "")
-    /\ UNCHANGED <<dcvars, qv, exitedP, probing, killing, broken, vmx, rb, sv, ov, bud, kf>>
+    /\ UNCHANGED <<dcvars, qv, exitedP, probing, killing, broken, vmx, rb, lsnap, born, sv, ov, bud, kf>>
 
 \* instance.Destroy succeeds (failures are the steps where it does not happen)
 DestroyOK(w) ==
     /\ wk[w].st = "shutdown" /\ vmx[w].exists
     /\ vmx' = [vmx EXCEPT ![w] = NoVm]
     /\ C!VmGoneEff(w)
-    /\ broken' = broken \ {w} /\ rb' = rb \ {w}
+    /\ broken' = broken \ {w} /\ rb' = rb \ {w} /\ UNCHANGED <<lsnap, born>>
     /\ Ev("vmgone", 0, w) /\ H("destroyok", 0, w, "")
     /\ UNCHANGED <<qv, wk, exitedP, probing, dirty, killing, sv, ov, bud, kf>>
 
@@ -364,6 +368,33 @@ SyncFail ==
     /\ Ev("none", 0, 0) /\ H("syncfail", 0, 0, "")
     /\ UNCHANGED <<dcvars, qv, pv, sv, ov, bud, kf>>
 
+\* pool.getInstancesAndSync when the cloud's list call takes time.  ListStart: the request is sent and
+\* the cloud takes its snapshot; ListApply: the answer arrives and pool.sync(threshold, instances)
+\* runs: a listed instance without worker becomes an Unknown worker; a worker that is not listed is
+\* dropped as "disappeared" UNLESS it was updated after `threshold`.  The code takes the threshold
+\* BEFORE the call (ThresholdBefore), so a worker created while the call was in flight (born) - which
+\* the snapshot cannot contain - is kept.  With the threshold taken after the call it would be dropped
+\* with its live container, the container started elsewhere, and the instance found again by the
+\* next list: two processes (MC_Dispatch_list_kf.cfg shows exactly that).
+ListStart ==
+    /\ StaleLists /\ lsnap = <<>> /\ phase # "boot"
+    /\ lsnap' = <<{w \in Wk : vmx[w].exists}>> /\ born' = {}
+    /\ Ev("none", 0, 0) /\ H("liststart", 0, 0, "")
+    /\ UNCHANGED <<dcvars, qv, wk, exitedP, probing, dirty, killing, broken, vmx, rb, sv, ov, bud, kf>>
+
+ListApply ==
+    /\ lsnap # <<>>
+    /\ LET seen == lsnap[1]
+           gone == {w \in Wk : wk[w].st # "absent" /\ w \notin seen /\ (ThresholdBefore => w \notin born)}
+       IN /\ wk' = [w \in Wk |-> IF w \in gone THEN NoWk
+                                  ELSE IF w \in seen /\ wk[w].st = "absent" /\ vmx[w].exists
+                                  THEN [st |-> "unknown", starting |-> {}, running |-> {}] ELSE wk[w]]
+          /\ killing' = [w \in Wk |-> IF w \in gone THEN {} ELSE killing[w]]
+          /\ probing' = [w \in Wk |-> IF w \in gone THEN NoProbe ELSE probing[w]]
+    /\ lsnap' = <<>> /\ born' = {}
+    /\ Ev("none", 0, 0) /\ H("listapply", 0, 0, "")
+    /\ UNCHANGED <<dcvars, qv, exitedP, dirty, broken, vmx, rb, sv, ov, bud, kf>>
+
 \* pool.sync: the instance is no longer listed; its runners are abandoned (no exited placeholder)
 InstanceGone(w) ==
     /\ wk[w].st # "absent" /\ ~vmx[w].exists
@@ -372,7 +403,7 @@ InstanceGone(w) ==
     /\ probing' = [probing EXCEPT ![w] = NoProbe]
     /\ broken' = broken \ {w}
     /\ Ev("none", 0, w) /\ H("instancegone", 0, w, "")
-    /\ UNCHANGED <<dcvars, qv, exitedP, dirty, vmx, rb, sv, ov, bud, kf>>
+    /\ UNCHANGED <<dcvars, qv, exitedP, dirty, vmx, rb, lsnap, born, sv, ov, bud, kf>>
 
 ------------------------------------------------------------------------------
 (* Scheduler *)
@@ -391,7 +422,7 @@ Restart ==
     /\ op' = [c \in Ctrs |-> NoOp] /\ spawn' = [c \in Ctrs |-> {}]
     /\ C!RestartEff
     /\ Ev("restart", 0, 0) /\ H("restart", 0, 0, "")
-    /\ UNCHANGED <<broken, vmx, rb, kf>>
+    /\ UNCHANGED <<broken, vmx, rb, lsnap, born, kf>>
 
 \* fixStaleLocks: one evaluation of the loop condition and body
 FixIter ==
@@ -455,32 +486,33 @@ RQVisit(c) ==
     /\ LET e == rqE[c] IN
        IF c \in rqRun \/ e.prio < 1 \/ e.state \notin {"Queued", "Locked"}
        THEN /\ rqTodo' = rqTodo \ {c}
-            /\ UNCHANGED <<dcvars, q, dontupd, wk, vmx, rb, killing, rqCur, unalloc, overq, spawn>> /\ Ev("none", c, 0)
+            /\ UNCHANGED <<dcvars, q, dontupd, wk, vmx, rb, lsnap, born, killing, rqCur, unalloc, overq, spawn>> /\ Ev("none", c, 0)
        ELSE IF e.state = "Queued"
        THEN IF unalloc < 1 /\ AtQuota
             THEN /\ overq' = TRUE
-                 /\ UNCHANGED <<dcvars, q, dontupd, wk, vmx, rb, killing, rqTodo, rqCur, unalloc, spawn>> /\ Ev("none", c, 0)
+                 /\ UNCHANGED <<dcvars, q, dontupd, wk, vmx, rb, lsnap, born, killing, rqTodo, rqCur, unalloc, spawn>> /\ Ev("none", c, 0)
             ELSE IF HasRunner(c)
             THEN /\ killing' = KillSide(c)
                  /\ rqTodo' = rqTodo \ {c}
-                 /\ UNCHANGED <<dcvars, q, dontupd, wk, vmx, rb, rqCur, unalloc, overq, spawn>> /\ Ev("none", c, 0)
+                 /\ UNCHANGED <<dcvars, q, dontupd, wk, vmx, rb, lsnap, born, rqCur, unalloc, overq, spawn>> /\ Ev("none", c, 0)
             ELSE /\ spawn' = [spawn EXCEPT ![c] = @ \cup {"lock"}]
                  /\ unalloc' = IF unalloc > 0 THEN unalloc - 1 ELSE 0      \* may go negative in Go; floor is equivalent
                  /\ rqTodo' = rqTodo \ {c}
-                 /\ UNCHANGED <<dcvars, q, dontupd, wk, vmx, rb, killing, rqCur, overq>> /\ Ev("none", c, 0)
+                 /\ UNCHANGED <<dcvars, q, dontupd, wk, vmx, rb, lsnap, born, killing, rqCur, overq>> /\ Ev("none", c, 0)
        ELSE IF unalloc > 0
             THEN /\ unalloc' = unalloc - 1 /\ rqCur' = c /\ rqTodo' = rqTodo \ {c}
-                 /\ UNCHANGED <<dcvars, q, dontupd, wk, vmx, rb, killing, overq, spawn>> /\ Ev("none", c, 0)
+                 /\ UNCHANGED <<dcvars, q, dontupd, wk, vmx, rb, lsnap, born, killing, overq, spawn>> /\ Ev("none", c, 0)
             ELSE IF AtQuota
             THEN /\ UnlockNow(c)
                  /\ overq' = TRUE
-                 /\ UNCHANGED <<wk, vmx, rb, killing, rqTodo, rqCur, unalloc, spawn>>
+                 /\ UNCHANGED <<wk, vmx, rb, lsnap, born, killing, rqTodo, rqCur, unalloc, spawn>>
             ELSE \E w \in FreeSlots :                                        \* pool.Create
                  /\ vmx' = [vmx EXCEPT ![w] = [exists |-> TRUE, booted |-> FALSE]]
                  /\ UNCHANGED dcvars /\ Ev("none", 0, w)
                  /\ wk' = [wk EXCEPT ![w] = [st |-> "booting", starting |-> {}, running |-> {}]]
+                 /\ born' = born \cup {w}
                  /\ rqCur' = c /\ rqTodo' = rqTodo \ {c}
-                 /\ UNCHANGED <<q, dontupd, killing, unalloc, overq, spawn>>
+                 /\ UNCHANGED <<q, dontupd, killing, unalloc, overq, spawn, lsnap>>
     /\ H("rqvisit", c, IF \E w \in Wk : wk'[w].st = "booting" /\ wk[w].st = "absent"
                        THEN CHOOSE w \in Wk : wk'[w].st = "booting" /\ wk[w].st = "absent" ELSE 0, "")
     /\ UNCHANGED <<upd, nextq, updMark, exitedP, probing, dirty, broken, rb, phase, stale, rqE, rqRun, dontstart,
@@ -506,7 +538,7 @@ RQStart ==
           ELSE dontstart' = TRUE /\ UNCHANGED <<dcvars, wk, killing>> /\ Ev("none", c, 0)
     /\ rqCur' = 0
     /\ H("rqstart", rqCur, last'.w, "")
-    /\ UNCHANGED <<qv, exitedP, probing, dirty, broken, vmx, rb, phase, stale, rqE, rqRun, rqTodo, unalloc, overq, ov, bud, kf>>
+    /\ UNCHANGED <<qv, exitedP, probing, dirty, broken, vmx, rb, lsnap, born, phase, stale, rqE, rqRun, rqTodo, unalloc, overq, ov, bud, kf>>
 
 RQEnd ==
     /\ phase = "rq" /\ rqCur = 0 /\ (rqTodo = {} \/ overq)
@@ -535,7 +567,7 @@ RQTailEnd ==
           ELSE UNCHANGED <<wk, dirty>>
     /\ phase' = "sync"
     /\ Ev("none", 0, 0) /\ H("rqtailend", 0, 0, "")
-    /\ UNCHANGED <<dcvars, qv, exitedP, probing, killing, broken, vmx, rb, stale, rqE, rqRun, rqTodo, rqCur, unalloc,
+    /\ UNCHANGED <<dcvars, qv, exitedP, probing, killing, broken, vmx, rb, lsnap, born, stale, rqE, rqRun, rqTodo, rqCur, unalloc,
                    dontstart, overq, ov, bud, kf>>
 
 \* sync: decisions on its own snapshots; goroutines are spawned, Forget is done inline
@@ -583,7 +615,7 @@ GoStart(c, k) ==
        ELSE /\ op' = [op EXCEPT ![c] = [NoOp EXCEPT !.k = k, !.st = "latched"]]
             /\ UNCHANGED <<killing, exitedP>>
     /\ Ev("none", c, 0) /\ H("gostart", c, 0, k)
-    /\ UNCHANGED <<dcvars, qv, wk, probing, dirty, broken, vmx, rb, sv, bud, kf>>
+    /\ UNCHANGED <<dcvars, qv, wk, probing, dirty, broken, vmx, rb, lsnap, born, sv, bud, kf>>
 
 \* the API server performs the call
 ApiCommit(c) ==
@@ -629,7 +661,7 @@ EnvNext == \/ \E c \in Ctrs : UserCancel(c) \/ UserHold(c)
                             \/ OpKillInstance(w)
            \/ Restart
 
-PoolNext == \/ UpdStart \/ UpdEnd \/ UpdAtomic \/ SyncFail
+PoolNext == \/ UpdStart \/ UpdEnd \/ UpdAtomic \/ SyncFail \/ ListStart \/ ListApply
             \/ \E w \in Wk : ProbeStart(w) \/ ProbeDrain(w) \/ ProbeEnd(w, FALSE) \/ ProbeEnd(w, TRUE) \/ IdleShutdown(w)
                              \/ DestroyOK(w) \/ InstanceGone(w)
             \/ \E w \in Wk, c \in Ctrs : StartExec(w, c) \/ KillTick(w, c)
